@@ -186,6 +186,10 @@ func checkC11(c c11Case, rec *Rec) *Violation {
 			}
 			seen[got[i].idx] = i
 		}
+		if v := c11ScanBetweenRetrievals(c, got, name, file); v != nil {
+			cleanup()
+			return v
+		}
 		if v := c11ConcurrentRetrieval(c, got, name, file); v != nil {
 			cleanup()
 			return v
@@ -244,6 +248,58 @@ func checkC11(c c11Case, rec *Rec) *Violation {
 		return viol(id, "C11:string-vs-file-engines", "engine answers differ between String and File backing:\n%s\nvs\n%s", clipStr(answers[0]), clipStr(answers[1]))
 	}
 	rec.LabelN("rules-scanned-and-retrieved", len(want))
+	return nil
+}
+
+// c11ScanBetweenRetrievals: on a cold storage, a rule is retrieved, the lists
+// are scanned again (as a second engine over the same storage does), and then
+// another rule is retrieved for the first time — preferably the one that starts
+// exactly one read buffer (4096 bytes) after the first.
+func c11ScanBetweenRetrievals(c c11Case, items []c11Item, name string, file bool) *Violation {
+	const id = "C11"
+	if len(items) < 2 {
+		return nil
+	}
+	st, cleanup, err := c11Storage(c.Lists, file)
+	if err != nil {
+		return viol(id, "C11:harness", "%s storage: %v", name, err)
+	}
+	defer cleanup()
+	byIdx := map[int64]int{}
+	for i, it := range items {
+		byIdx[it.idx] = i
+	}
+	retrieve := func(i int, what string) *Violation {
+		it := items[i]
+		r, rerr := st.RetrieveRule(it.idx)
+		if rerr != nil || r == nil {
+			return viol(id, "C11:retrieve-fails:"+name+":scan-between", "%s-backed RetrieveRule(%d) (%s, scanned %+v): rule=%v err=%v", name, it.idx, what, clipItem(it), r, rerr)
+		}
+		if ruleKind(r) != it.kind || r.Text() != it.text || r.GetFilterListID() != it.listID {
+			return viol(id, "C11:retrieve-differs:"+name+":scan-between", "%s-backed RetrieveRule(%d) (%s) = (%s, %q, list %d), scanned %+v", name, it.idx, what, ruleKind(r), clipStr(r.Text()), r.GetFilterListID(), clipItem(it))
+		}
+		return nil
+	}
+	done := 0
+	for a := 0; a < len(items) && done < 12; a++ {
+		b, ok := byIdx[items[a].idx+4096]
+		if !ok {
+			if a%7 != 3 || a+1 >= len(items) {
+				continue
+			}
+			b = a + 1
+		}
+		done++
+		if v := retrieve(a, "first retrieval"); v != nil {
+			return v
+		}
+		sc := st.NewRuleStorageScanner()
+		for sc.Scan() {
+		}
+		if v := retrieve(b, "first retrieval of this rule, after another retrieval and a full scan"); v != nil {
+			return v
+		}
+	}
 	return nil
 }
 
@@ -329,10 +385,11 @@ var c11LinePool = []string{
 	"! comment", "# hosts comment", "#", "", " ", "\t", "||bad^$unknownmod", "@@", "||x^$domain=", "|", "*",
 	"||пример.рф^", "# комментарий ✓", "0.0.0.0 пример.рф", "a\x00b.com", "||nul\x00.example^", "\xff\xfe||bom.example^",
 	"||example.org^$domain=example.com|~example.net,unknownmodifier=1,third-party,script", // a long rejected line
-	"@@||example.org^$elemhide,popup,domain=example.com|example.net|example.org|a.com", // rejected: popup on an exception
+	"@@||example.org^$elemhide,popup,domain=example.com|example.net|example.org|a.com",    // rejected: popup on an exception
 	"\u00a0||nbsp.example^\u00a0", "\f||formfeed.example^", "\u2003a.com\u2003", "0.0.0.0 example.org\u0085", "\v##.vt", // Unicode blanks at the edges
 	"\xa0||latin1.example^", "\x85||nel.example^", "\xbf0.0.0.0 example.org", // first byte is a UTF-8 continuation byte
 	"||example.org^$dnsrewrite=1.2.3.4", "||example.org^$client='Frank\\'s laptop'", "/regex[0-9]+/", "  ||trimmed.example^  ",
+	"cn", "io", "a", "ab", "a.b", // the shortest lines there are
 }
 
 func c11LongLine(t *rapid.T) string {
@@ -357,6 +414,16 @@ func genC11(t *rapid.T) c11Case {
 			buf.WriteString(pick(t, "bom-first-line", []string{"||bom8.example^", "example.org", "0.0.0.0 a.com", "! comment", "##.x"}))
 			buf.WriteString("\n")
 		}
+		if chance(t, "aligned-lines", 10) {
+			// lines of exactly 32 bytes: rules start at every multiple of the 4 KiB read buffer
+			n := rapid.IntRange(130, 400).Draw(t, "aligned-n")
+			for j := 0; j < n; j++ {
+				ln := fmt.Sprintf("||h%04d.example^$ctag=t%04d", j, j)
+				buf.WriteString(ln + strings.Repeat(" ", 31-len(ln)) + "\n")
+			}
+			c.Lists = append(c.Lists, c11List{ID: ids[i], Content: buf.Bytes()})
+			continue
+		}
 		k := rapid.IntRange(0, 25).Draw(t, "nlines")
 		eol := pick(t, "eol", []string{"\n", "\r\n", "mixed"})
 		for j := 0; j < k; j++ {
@@ -375,6 +442,13 @@ func genC11(t *rapid.T) c11Case {
 				e = pick(t, "mixed-eol", []string{"\n", "\r\n", "\n\n", "\r\r\n", "\r", "\r \n"}) // a lone CR does not end a line
 			}
 			buf.WriteString(e)
+		}
+		if chance(t, "two-byte-last-line", 8) {
+			// an unterminated last line of two bytes
+			if b := buf.Bytes(); len(b) > 0 && b[len(b)-1] != '\n' {
+				buf.WriteString("\n")
+			}
+			buf.WriteString(pick(t, "two-bytes", []string{"cn", "io", "ru", "ab"}))
 		}
 		c.Lists = append(c.Lists, c11List{ID: ids[i], Content: buf.Bytes(), IgnoreCosmetic: chance(t, "ignore-cosmetic", 3)})
 	}
